@@ -56,6 +56,14 @@ Theorem c16_no_duplicate_ids : forall o env privs ctx gs gi st,
 Proof. intros. apply unlock_loop_inv. assumption. Qed.
 Print Assumptions c16_no_duplicate_ids.
 
+(* matchPrivKeys is a function of (key identity, index): an offered key is found
+   at every index at which its public key occurs (lists with repetitions) *)
+Theorem c16_matched_every_index : forall env K i pub,
+  nth_error (e_keypairs env) (Z.to_nat i) = Some pub -> knows K pub = true ->
+  exists sk, matched env K i = Some sk /\ edpub sk = pub /\ In sk K.
+Proof. exact matched_every_index. Qed.
+Print Assumptions c16_matched_every_index.
+
 (* non-vacuity: a two-recipient configuration that is accepted, where key 0
    alone reaches 2 of the 2 needed shares and key 1 alone only 1 *)
 Definition ex_orc : orc := {| o_valid := fun _ => true; o_s2raw := fun _ => None; o_s2len := fun _ => 0%nat |}.
